@@ -10,6 +10,7 @@
 package crosscompile
 
 //@ func extractTarGz
+//@ params tarGzFile dest
 //@ props C20
 //@ effects os: Open, OpenFile, MkdirAll, File.Close
 //@ effects os/exec:
@@ -22,6 +23,7 @@ package crosscompile
 //@ modifies everything
 
 //@ func extractZip$1
+//@ params file
 //@ props C20
 //@ effects os: Create, MkdirAll, File.Close
 //@ effects os/exec:
@@ -34,6 +36,7 @@ package crosscompile
 //@ modifies nothing
 
 //@ func extractZip
+//@ params zipFile dest
 //@ props C20
 //@ effects os:
 //@ effects os/exec:
